@@ -753,6 +753,48 @@ impl C15 {
         }
     }
 
+    /// An instruction whose accounts are all named (no remaining accounts were sent) is given one account more at the end: an
+    /// empty address, the oracle address of another pool, a tick array of another pool. Nothing of the named pool may be taken
+    /// from it: the call is refused, or it does exactly what it did without it.
+    fn append_foreign(&mut self, v: &IxView, c: &Call, idx: usize, salt: u64, cov: &mut Coverage, out: &mut Vec<Violation>) {
+        let name = c.name();
+        if v.ix.accounts.len() != c.info.accounts.len() {
+            return;
+        }
+        let l = v.pre;
+        let named: Vec<Pubkey> = v.ix.accounts.iter().map(|m| m.pubkey).collect();
+        let mut cands: Vec<(Pubkey, &'static str)> = vec![(scratch_key(salt, 6900), "an empty address")];
+        for (wk, _) in decode::pools(l) {
+            let ok = ix::pda_oracle(&wk);
+            if !named.contains(&wk) && !named.contains(&ok) {
+                cands.push((ok, if l.get(&ok).is_some() { "the oracle of another pool" } else { "the (empty) oracle address of another pool" }));
+                break;
+            }
+        }
+        if let Some((k, _)) = l.accts.iter().find(|(k, a)| a.owner == ix::wp() && kind_of(a) == Kind::TickArray && !named.contains(k) && !named.contains(&array_pool(&a.data))) {
+            cands.push((*k, "a tick array of another pool"));
+        }
+        for (sub, label) in cands {
+            for writable in [true, false] {
+                let mut ixn = v.ix.clone();
+                ixn.accounts.push(rt::Meta { pubkey: sub, is_signer: false, is_writable: writable });
+                let mut f = l.clone();
+                let r = rt::exec_tx_simple(&mut f, &Tx { ixs: vec![ixn] });
+                cov.eval(format!("{}|appended|{}", name, label));
+                self.cell(format!("{} / one more account at the end / {}", name, label), !r.ok);
+                if !r.ok {
+                    continue;
+                }
+                // (an account emptied by the call is gone at the end of the transaction: no lamports and absent are the same)
+                let diff: Vec<Pubkey> = v.post.accts.iter().filter(|(k, a)| a.lamports != 0 && f.get(k).map(|b| b.data != a.data || b.lamports != a.lamports || b.owner != a.owner).unwrap_or(true)).map(|(k, _)| *k).chain(f.accts.iter().filter(|(k, b)| b.lamports != 0 && v.post.get(k).map(|a| a.lamports == 0).unwrap_or(true)).map(|(k, _)| *k)).collect();
+                if !diff.is_empty() {
+                    out.push(v15("appended_account_changes_outcome", idx, format!("{}: with {} ({}, {}) appended after the named accounts the call succeeds and ends differently: {} account(s) differ, first {} ({:?} vs {:?})", name, label, sub, if writable { "writable" } else { "read-only" }, diff.len(), diff[0], v.post.get(&diff[0]).map(|a| (a.owner, a.lamports, a.data.len())), f.get(&diff[0]).map(|a| (a.owner, a.lamports, a.data.len())))));
+                    return;
+                }
+            }
+        }
+    }
+
     fn substitute(&mut self, v: &IxView, c: &Call, idx: usize, salt: u64, cov: &mut Coverage, out: &mut Vec<Violation>) {
         let name = c.name();
         let mut rng = Rng::new(salt ^ 0xC15);
@@ -1163,6 +1205,10 @@ impl Monitor for C15 {
                 continue;
             }
             self.substitute(&v, &c, ev.idx, ev.salt ^ (v.i as u64), cov, &mut out);
+            if !out.is_empty() {
+                break;
+            }
+            self.append_foreign(&v, &c, ev.idx, ev.salt ^ (v.i as u64), cov, &mut out);
             if !out.is_empty() {
                 break;
             }
